@@ -336,3 +336,21 @@ Proof.
     rewrite Hs, Hco. split; ring. }
   destruct (Hc (lo * (PI / 180)) k) as [-> ->]. reflexivity.
 Qed.
+
+(* ---------- bins: variogram.py divides the bin edges by geo_scale and the kernel compares them with the angle;
+   that is the same as comparing the great-circle distance geo_scale * angle with the user's edges *)
+Theorem bins_geo_scale ora g lo hi theta : 0 < g ->
+  in_bin (Rops_with ora) (lo / g) (hi / g) theta = in_bin (Rops_with ora) lo hi (g * theta).
+Proof.
+  intros Hg. unfold in_bin. rsimp. unfold Rleb, Rltb.
+  assert (E1 : lo / g <= theta <-> lo <= g * theta).
+  { split; intros H.
+    - apply Rmult_le_compat_l with (r := g) in H; [|lra]. replace (g * (lo / g)) with lo in H by (field; lra). exact H.
+    - apply Rmult_le_reg_l with g; [lra|]. replace (g * (lo / g)) with lo by (field; lra). exact H. }
+  assert (E2 : theta < hi / g <-> g * theta < hi).
+  { split; intros H.
+    - apply Rmult_lt_compat_l with (r := g) in H; [|lra]. replace (g * (hi / g)) with hi in H by (field; lra). exact H.
+    - apply Rmult_lt_reg_l with g; [lra|]. replace (g * (hi / g)) with hi by (field; lra). exact H. }
+  destruct (Rle_dec (lo / g) theta), (Rle_dec lo (g * theta)), (Rlt_dec theta (hi / g)), (Rlt_dec (g * theta) hi);
+    try reflexivity; tauto.
+Qed.
